@@ -273,12 +273,12 @@ PROPS = {
                  'the session-less retry loop re-sends the buffer serialised once (first datagram captured; retries are the subject of C10)']},
     "C18": {
         "claim": "conservation: for EVERY history of dials, session opens/closes and commands, each with ANY sequence of per-attempt outcomes (final code, temporary code, junk, lost), and from any starting counter values, the instrumentation model's counters change by exactly: command attempts = calls per name, command failures = calls that returned an error (incl. a response body that fails to decode), retries = runs of the retry closure beyond the first of each call, responses per completion code = valid responses received, session/connection open attempts and failures = opens tried/failed, gauges = opens minus closes (gauges_do_not_drift for matched histories). Proved by induction over histories with per-call laws by induction over the attempt list. wire_accounting ties the abstract outcomes to the wire: an attempt's outcome is a function attOf of the session keys, the command and the BYTES of the reply, and for every in-session command and reply script the retry and failure counters move by what the byte-level loop model (tied to the code datagram for datagram, C10) transmits and returns. The model's increments are tied to the code by comparing prometheus.DefaultGatherer deltas after real histories (real handshakes, real in-session and session-less commands with scripted replies, real failing dial) with the model's counters, letter for letter.",
-        "note": "trusted: Lean kernel; the instrumentation model Proto/Metrics.lean (hand-written from the Inc()/Dec() sites; tied by the gatherer-delta correspondence); the Prometheus client library (internally synchronised counters); the mapping from scripted reply letters to the abstract outcomes final/temp/junk/lost in the hist scenario is the harness's (in Lean it is attOf, a function of the reply bytes, for in-session commands; replies to other commands and undecodable replies are junk: not counted as responses); a retry-closure run whose Send fails because the context expired counts as a retry (the datagram was handed to the transport)",
+        "note": "trusted: Lean kernel; the instrumentation model Proto/Metrics.lean (hand-written from the Inc()/Dec() sites; tied by the gatherer-delta correspondence); the Prometheus client library (internally synchronised counters); the mapping from scripted reply letters to the abstract outcomes final/temp/junk/lost in the hist scenario is the harness's; in scenario sendm the Lean side derives each attempt's outcome from the BYTES of the scripted reply with attOf (the function of wire_accounting) and the real gatherer deltas of every in-session command over all 1- and 2-reply scripts of the 21-letter alphabet (thorough: 3) are compared with the instrumentation model ( replies to other commands and undecodable replies are junk: not counted as responses); a retry-closure run whose Send fails because the context expired counts as a retry (the datagram was handed to the transport)",
         "technique": "Lean 4 proof (conservation laws by induction over histories and attempt lists) + differential correspondence of Prometheus gatherer deltas",
         "ref": "§5 C18",
         "proofs": ["Bmc.Proofs.C18"],
-        "scenarios": ["hist"],
-        "rule": "150 (thorough 3000) random histories of 5..60 events over {dial via hook, failing real dial, close connection, session open ok / wrong password, close session with 6 scripts, in-session and session-less commands of three names (one whose response body never decodes) with random outcome scripts of 0..5 letters over {F,E,B,T,X,G,L}}. Non-trivial = history with at least one failure and one retried command; distinct = distinct op line.",
+        "scenarios": ["hist", "sendm"],
+        "rule": "sendm: every in-session reply script of length 1..2 (thorough 3) over the 21-letter alphabet of C10, ending in a lost reply or in the context expiring while the last reply is handled; retries / attempts / failures / responses-per-code deltas of the real gatherer vs the model driven by attOf on the reply bytes. hist: 150 (thorough 3000) random histories of 5..60 events over {dial via hook, failing real dial, close connection, session open ok / wrong password, close session with 6 scripts, in-session and session-less commands of three names (one whose response body never decodes) with random outcome scripts of 0..5 letters over {F,E,B,T,X,G,L}}. Non-trivial = history with at least one failure and one retried command; distinct = distinct op line.",
         "modelled": ["every Inc()/Dec() of connection.go, session.go, v2sessionless.go, v2session.go, v2session_new.go, bmc.go, sessionless_transport.go as a step function"],
         "assumptions": ["Close called twice on one session/connection is outside the property (matched opens and closes)"],
     },
